@@ -183,6 +183,7 @@ type Call struct {
 	FaultWrite  int // k-th Write on the writer fails
 	FaultKind   int // see Probes.Kind
 	Tokens      bool
+	SetCfg      int // which Set configuration the call runs on (C10: 0 = default escaper, 1 = no escaper + a global)
 }
 
 func (c Call) String() string {
@@ -195,6 +196,9 @@ func (c Call) String() string {
 	}
 	if c.FaultKind > 0 {
 		s += []string{"", "(string-panic)", "(runtime-error)"}[c.FaultKind]
+	}
+	if c.SetCfg > 0 {
+		s += fmt.Sprintf(" on-set#%d", c.SetCfg)
 	}
 	if c.FaultWrite > 0 {
 		s += fmt.Sprintf(" fault=write#%d", c.FaultWrite)
@@ -258,6 +262,17 @@ func NewSet(files map[string]string, opts ...jet.Option) (*jet.Set, *jet.InMemLo
 		l.Set(p, files[p])
 	}
 	return jet.NewSet(l, opts...), l
+}
+
+// NewSetCfg builds a Set in one of the configurations C10 moves Runtimes between.
+func NewSetCfg(files map[string]string, cfg int) *jet.Set {
+	if cfg == 1 {
+		s, _ := NewSet(files, jet.WithSafeWriter(nil))
+		s.AddGlobal("gx", "global-of-set-1")
+		return s
+	}
+	s, _ := NewSet(files)
+	return s
 }
 
 // Exec performs one call on the given Set.
